@@ -13,6 +13,8 @@ Oracles are instantiated from the real code:
                   harness op coercion_detect; tokenize/render_tokens are ported below (ASCII)
   compound_note   detect_compound_coercion: two coercion_detect calls + the match of lines 985-1007
   line_excluded   python `re` on every line of the file (patterns are plain literals/alternations)
+The harness binary is $RN_HARNESS (default ./rn-harness).  The model follows the FIXED scanner (context at
+the match's own column); the original ./rn-harness predates that fix and disagrees on the 'shadow' kinds.
 Compared per hunk: line, column, start, end, variant, content, replace, line_before, line_after,
 coercion note flag; and per match whether it is filtered.
 """
@@ -20,8 +22,8 @@ import json, os, random, re, subprocess, sys, time
 from collections import Counter
 
 ROOT = os.path.dirname(os.path.abspath(__file__))
-ROCQ = os.path.join(ROOT, "rocq")
-WORK = os.path.join(ROOT, "difftest_work")
+ROCQ = os.environ.get("RN_ROCQ", os.path.join(os.path.dirname(ROOT), "rocq"))
+WORK = os.environ.get("RN_WORK", os.path.join(os.path.dirname(ROOT), "build", "hunktail_work"))
 os.makedirs(WORK, exist_ok=True)
 
 ALL = ["Snake", "Kebab", "Camel", "Pascal", "ScreamingSnake", "Title", "Train", "ScreamingTrain",
@@ -34,7 +36,7 @@ CLI_DEFAULT = ["Snake", "Kebab", "Camel", "Pascal", "ScreamingSnake", "Train", "
 # ------------------------------------------------------------------ harness
 class Harness:
     def __init__(self):
-        self.p = subprocess.Popen([os.path.join(ROOT, "rn-harness")], stdin=subprocess.PIPE,
+        self.p = subprocess.Popen([os.environ.get("RN_HARNESS", os.path.join(ROOT, "rn-harness"))], stdin=subprocess.PIPE,
                                   stdout=subprocess.PIPE, text=True)
     def call(self, o):
         self.p.stdin.write(json.dumps(o) + "\n"); self.p.stdin.flush()
